@@ -253,6 +253,35 @@ def gen_flat_case(rng):
     return [A], [B, D], ('flat', 'flat')
 
 
+def gen_flat_precise_case(rng):
+    """like gen_flat_case, but the crossings of steep edges with the nearly horizontal edge are placed a tiny fraction
+    (1/M, M = 500..3000) of a unit above or below integer scanlines on which other vertices lie: the situation in which
+    the rounded curr_x values hide the swap until the next scanbeam and AddNewIntersectNode has to repair a computed
+    intersection point that falls outside the scanbeam.  Up to four steep slivers cross the flat edge."""
+    h = rng.choice([8, 10, 12, 14])
+    M = rng.range(250, 1500) * 2
+    L = M * h // 2                                   # flat edge (L, oy) -> (-L, oy - h): y(x) = oy - (L - x) / M
+    oy = rng.range(-40, 40)
+    A = [(L, oy), (-L, oy - h), (-L + rng.range(5, 40), oy + rng.range(12, 40))]
+    js = list(range(4, h - 1))                       # away from the tip (L, oy), where A's two flat edges are < 3 units apart
+    rng.shuffle(js)
+    Bs, Ds = [], []
+    for n, j in enumerate(js[:rng.range(2, 4)]):
+        Y = oy - j                                   # the scanline
+        x0 = L - M * j + rng.choice([1, -1])         # flat_y(x0) = Y +- 1/M
+        up, dn = rng.range(25, 60), rng.range(25, 60)
+        w = rng.range(60, 120) * rng.choice([1, -1])
+        Bs.append([(x0 + rng.choice([0, 1]), Y + up), (x0 - rng.choice([0, 1]), Y - dn), (x0 + w, Y - dn - rng.range(2, 6))])
+        far = L + 60 + 40 * n
+        Ds.append([(far, Y), (far + rng.range(4, 9), Y + rng.range(7, 15)), (far + rng.range(10, 16), Y - rng.range(6, 13))])
+    sx = rng.choice([1, -1]); sy = rng.choice([1, -1])
+    f = lambda p: [(sx * x, sy * y) for (x, y) in p]
+    A, Bs, Ds = f(A), [f(b) for b in Bs], [f(d) for d in Ds]
+    if rng.chance(1, 2):
+        return [A] + Ds, Bs, ('flatp', 'flatp')
+    return [A], Bs + Ds, ('flatp', 'flatp')
+
+
 def add_scanline_probes(rng, S, C, k=1, nmax=3):
     """Aim at the sweep's handling of a scanline that falls right next to an edge crossing: for up to `nmax` proper
     crossings of input edges add a small triangle far outside the bounding box (so general position is kept and
